@@ -1,45 +1,7 @@
 //! vpcheck — property-based / fuzzing checks for gimli (see /verif/DESIGN.md).
-mod core;
-mod driver;
-mod enc;
-mod c09;
-mod c10;
-mod c11;
-mod c12;
-mod wmodel;
-mod c13;
-mod c14;
-mod c15;
-mod c16;
-mod c17;
-mod c18;
-mod c19;
-mod c20;
-mod c01;
-mod c02;
-mod c03;
-mod c04;
-mod c05;
-mod dieasm;
-mod c06;
-mod linemodel;
-mod sem;
-mod c07;
-mod c08;
-mod cfimodel;
-mod exprvm;
-mod fullasm;
-
-use crate::core::{Prop, Tier};
 use std::path::Path;
-
-pub fn props() -> Vec<&'static dyn Prop> {
-    vec![&c01::C01, &c02::C02, &c03::C03, &c04::C04, &c05::C05, &c06::C06, &c07::C07, &c08::C08, &c09::C09, &c10::C10, &c11::C11, &c12::C12, &c13::C13, &c14::C14, &c15::C15, &c16::C16, &c17::C17, &c18::C18, &c19::C19, &c20::C20]
-}
-
-pub fn find(id: &str) -> Option<&'static dyn Prop> {
-    props().into_iter().find(|p| p.id().eq_ignore_ascii_case(id))
-}
+use vpcheck::core::Tier;
+use vpcheck::{driver, find};
 
 fn usage() -> ! {
     eprintln!("usage: vpcheck <ID> <quick|thorough> | vpcheck <ID> --replay <file> | vpcheck <ID> --replay-raw <file>");
@@ -50,6 +12,16 @@ fn main() {
     let args: Vec<String> = std::env::args().collect();
     if args.len() < 3 {
         usage();
+    }
+    if args[1] == "--corpus" {
+        // --corpus <dir> <count>: well-formed inputs for the `sections` fuzz target
+        let dir = Path::new(&args[2]);
+        std::fs::create_dir_all(dir).unwrap();
+        let n: u64 = args.get(3).and_then(|s| s.parse().ok()).unwrap_or(64);
+        for i in 0..n {
+            std::fs::write(dir.join(format!("seed-{:03}", i)), vpcheck::c01::corpus_entry(i)).unwrap();
+        }
+        return;
     }
     if args[1] == "--worker" {
         // --worker ID tier seed threads out
